@@ -17,7 +17,7 @@ S_COMPONENTS = {"real": ["search (instrumented copy)", "index (instrumented copy
 I_COMPONENTS = {"real": ["cmd/zoekt-sourcegraph-indexserver Queue, backoff, indexMutex (instrumented copy)", "container/heap", "time (synctest fake clock)"],
                 "stub": ["goroutine scheduling decisions", "sync primitives (simulated)", "Sourcegraph frontend, Server.Run loop and the indexer child processes are not part of any run"]}
 
-GROUPS = ["search", "ixserver"]
+GROUPS = ["search", "ixserver", "grpcsim"]
 
 PROPS = {
     "C20": dict(
@@ -107,5 +107,16 @@ PROPS = {
         technique="deterministic simulation: concurrent mixed-tenant Search/StreamSearch/List under seeded schedules over shards mixing tenants, with an isolation invariant evaluated on every response",
         level_text="Strict tenant enforcement; 12 corpora whose compound shards mix repositories of tenants 1 and 2; 1-4 concurrent clients issue generated queries (repository filters, type:repo, content) as tenant 1, tenant 2, without tenant or as the system context. Every response is checked: no file match, list entry, ReposMap id, RepoURLs key/URL template or LineFragments key of a repository the caller does not own (nothing at all for a tenant-less caller); the caller's own results equal the per-shard reference restricted to its repositories; the system context sees everything.",
         level_note="Samples schedules and queries on static shard sets.",
+    ),
+    "C25": dict(
+        group="grpcsim", level="exploration",
+        rule="one evaluation = one generated history of 0-250 produced results (stats-only events incl. single overlooked counters, events with 1-6 files, files of 300 KiB/600 KiB/>1 MiB) pushed through the real Server.StreamSearch -> samplingSender -> gRPCChunkSender -> chunk.SendAll into a simulated stream; a quarter of the runs make Send fail from a fault-stream-chosen message on. distinct_nontrivial = distinct event-log hashes (producer/transport steps, sizes, fault point) among runs with >= 2 produced files and >= 2 delivered messages.",
+        harnesses=[dict(name="C25", quick=16000, thorough=400000, quick_deadline_s=170, thorough_deadline_s=1500)],
+        expect_faults=["send-error"],
+        components={"real": ["cmd/zoekt-webserver/grpc/server Server.StreamSearch, samplingSender, gRPCChunkSender", "grpc/chunk Chunker", "api_proto conversions", "google.golang.org/protobuf"], "stub": ["the result source is a stub zoekt.Streamer emitting generated event sequences (the real sharded searcher is exercised by C18/C21/C22)", "gRPC transport: direct handler call with a recording stream that can fail"]},
+        assumptions=["the produced sequence is single-threaded (zoekt.Sender is not required to be thread-safe below flushCollectSender)", "statistics counters = the fields Stats.Add sums (Duration and FlushReason are not additive)"],
+        technique="deterministic simulation: generated result histories and injected transport errors through the real gRPC streaming pipeline, conservation checks on the recorded message history",
+        level_text="Generated result histories through the real streaming pipeline into a recording transport: delivered files are exactly the produced files in order, once (a prefix when the transport fails, never duplicated); a message with more than one file stays below 1 MiB of encoded file matches and 4 MiB in total; on successful completion every statistics counter summed over delivered messages equals the sum over produced results (never more under faults).",
+        level_note="Samples histories and fault points; no concurrency inside this pipeline, so the schedule dimension is trivial here.",
     ),
 }
